@@ -6,6 +6,7 @@ import (
 	"fmt"
 	"sort"
 	"strings"
+	"sync/atomic"
 	"time"
 
 	abci "github.com/cometbft/cometbft/abci/types"
@@ -66,6 +67,8 @@ func c18Menu(thorough bool) []enga.ABlock {
 	}
 	return m
 }
+
+var c18QueriesAsked, c18QueriesAnswered atomic.Int64
 
 func canonJSON(raw []byte) string {
 	var v any
@@ -155,6 +158,11 @@ func c18RoundTrip(w *enga.World) (bad []string) {
 	if multiset(sq.OnBoarding) != multiset(iq.OnBoarding) || multiset(sq.OffBoarding) != multiset(iq.OffBoarding) {
 		bad = append(bad, fmt.Sprintf("boarding-queue-differs: %v/%v vs %v/%v", sq.OnBoarding, sq.OffBoarding, iq.OnBoarding, iq.OffBoarding))
 	}
+	// every query gives the same answer on both chains
+	qbad, asked, answered := c18CompareQueries(w, sctx, imp, ictx)
+	bad = append(bad, qbad...)
+	c18QueriesAsked.Add(int64(asked))
+	c18QueriesAnswered.Add(int64(answered))
 	// invariants of the running chain hold on the import
 	snap := engb.TakeSnap(imp, ictx)
 	for _, re := range snap.Ranking {
@@ -248,7 +256,7 @@ func runC18(r *mc.Run) {
 		r.SetBudget(170 * 1e9)
 	}
 	r.Bounds["depth_blocks"] = depth
-	r.Rule = "tree search over block histories of the real application producing pending / active / zero-power / jailed-path / tombstoned / exiting validators, pending and boarding voters (also several membership changes of a group of four queued between two elections), in-flight and cancelling withdrawals, non-empty queues, pending unlocks, voted hashes, credited deposits and bridge-parameter corners; in every visited state: ExportAppStateAndValidators -> InitChain on a fresh App must succeed, return the exported active set, re-export identically (per module), reproduce every module store (boarding queue as a multiset), satisfy the ranking / set / group invariants, and produce a block"
+	r.Rule = "tree search over block histories of the real application producing pending / active / zero-power / jailed-path / tombstoned / exiting validators, pending and boarding voters (also several membership changes of a group of four queued between two elections), in-flight and cancelling withdrawals, non-empty queues, pending unlocks, voted hashes, credited deposits and bridge-parameter corners; in every visited state: ExportAppStateAndValidators -> InitChain on a fresh App must succeed, return the exported active set, re-export identically (per module), reproduce every module store (boarding queue as a multiset), answer every gRPC query of the goat modules and the auth account queries identically (every method, every argument denoting something in the state plus unknown ones, through the registered query routes), satisfy the ranking / set / group invariants, and produce a block"
 	r.Assumptions = []string{"the re-export reads the imported state through the finalize-state context right after InitChain (no block in between)"}
 	for _, rt := range c18Roots(r.Thorough()) {
 		rt := rt
@@ -304,6 +312,8 @@ func runC18(r *mc.Run) {
 		treeRecheck(r, explore)
 		explore(r, nil)
 	}
+	r.Extra["queries_put_to_both_chains"] = c18QueriesAsked.Load()
+	r.Extra["queries_with_non_error_answer_on_the_exporting_chain"] = c18QueriesAnswered.Load()
 }
 
 // c18Roots are the genesis configurations the histories start from: the general one, and a
